@@ -137,6 +137,39 @@ static void run_gate(Json& js, vh::Rng& rng, long budget) {
             pos += fl;
         }
         js.begin("Gate").num("hold", hold).arr("xs", xs).arr("gains", gs).end();
+        // the same kind of pattern through a gate with non-zero opening / closing times and a hold: bursts shorter than the
+        // opening time leave the gate partly open when the level drops.  Whatever the smoothing does, the gain never rises
+        // while the input is below the threshold (target 0) and never falls while it is at or above it (target 1).
+        {
+            const int fs2 = 1000, hold2 = (int)rng.range(0, 8);
+            NoiseGate q(fs2, thr, (1.5 + 20 * rng.unif()) / fs2, (1.5 + 20 * rng.unif()) / fs2, (hold2 + 0.5) / fs2);
+            const int n2 = (int)rng.range(40, 200);
+            std::vector<long> xs2, dir;
+            arr_real x2(n2);
+            bool ab = rng.coin();
+            for (int i = 0; i < n2; ++i) {
+                if (rng.range(0, 4) == 0) {
+                    ab = !ab;
+                }
+                x2[i] = (ab ? tlin * (1.0 + rng.unif()) : tlin * 0.9 * rng.unif()) * (rng.coin() ? 1 : -1);
+                xs2.push_back(ab ? 1 : 0);
+            }
+            double prev = 0;   // a new gate is closed
+            bool inrange = true;
+            int pos2 = 0;
+            while (pos2 < n2) {
+                const int fl = (int)std::min<long>(n2 - pos2, rng.range(1, 30));
+                auto r = q.process(arr_real(x2.slice(pos2, pos2 + fl)));
+                for (int i = 0; i < fl; ++i) {
+                    const double g = r.gain[i];
+                    inrange = inrange && g >= 0 && g <= 1;
+                    dir.push_back(g > prev ? 1 : (g < prev ? -1 : 0));
+                    prev = g;
+                }
+                pos2 += fl;
+            }
+            js.begin("GateDyn").num("hold", hold2).arr("xs", xs2).arr("dir", dir).boolean("inrange", inrange).end();
+        }
     }
 }
 
